@@ -85,4 +85,62 @@ theorem directory_reads_back (w : World) (root : Path) (ps3 : Bool) (clk : Clock
   rw [Proof.BuildWF.dir_at_its_location w L F ps3 clk filler joliet k it hk]
   exact dir_extent_roundtrip _ _ _ _ _ _ _ hfit
 
+theorem rootRecOf_eq (L : Layout) (joliet : Bool) (D : Nat) (it : DirItem) (h0 : L.items[0]? = some it) :
+    rootRecOf (L.recsOf joliet D) = ⟨dirLoc L.items joliet D 0, dirLen L.items joliet 0, recTime it.mtime, 2, [0]⟩ := by
+  have hrec : L.recsOf joliet D = L.items.zipIdx.map (fun p => finalRecs L.items L.rootLen joliet D L.filesLBA p.2 p.1) := by
+    unfold Layout.recsOf
+    exact Proof.BuildWF.range_filterMap_getElem (fun k it => finalRecs L.items L.rootLen joliet D L.filesLBA k it) L.items
+  unfold rootRecOf
+  rw [hrec]
+  cases hi : L.items with
+  | nil => rw [hi] at h0; simp at h0
+  | cons a rest =>
+    rw [hi] at h0
+    simp at h0; subst h0
+    simp [finalRecs, dirLoc, dirLen]
+
+/-- **The volume descriptor's root directory record (bytes 156..189) is the '.' record of the root
+    directory**: it names the sector where the root directory really is (`dirLoc 0`), its length, and
+    parses back to exactly that record. -/
+theorem descriptor_root_record (typ : Nat) (joliet : Bool) (volumeName : Bytes) (volSectors ptBytes lLoc mLoc : Nat)
+    (rootRec : DirRec) (clk : Clock) (hr : rootRec.encode.length = 34) :
+    slice (volumeDescriptor typ joliet volumeName volSectors ptBytes lLoc mLoc rootRec clk) 156 34 = rootRec.encode := by
+  have hv : ((mangleUpper Gen.fs_dCharacters volumeName joliet).take 32).length ≤ 32 := by
+    simp [List.length_take]; omega
+  have hlin := Proof.BuildWF.linux_len joliet
+  have hj : (if joliet then ([37, 47, 64] : Bytes) else []).length ≤ 32 := by cases joliet <;> simp
+  have hroot : padTo rootRec.encode 34 0 = rootRec.encode := by simp [padTo, hr]
+  -- the descriptor as  pre ++ (root record ++ post)  with 156 bytes in front
+  have hsplit : ∃ pre post : Bytes, pre.length = 156 ∧
+      volumeDescriptor typ joliet volumeName volSectors ptBytes lLoc mLoc rootRec clk = pre ++ (rootRec.encode ++ post) := by
+    refine ⟨descHeader typ ++ ([0] ++ padTo (mangleUpper Gen.fs_aCharacters [108, 105, 110, 117, 120] joliet) 32 32 ++
+        padTo ((mangleUpper Gen.fs_dCharacters volumeName joliet).take 32) 32 32 ++ zeros 8 ++ lsbmsb 4 volSectors ++
+        padTo (if joliet then [37, 47, 64] else []) 32 0 ++
+        lsbmsb 2 1 ++ lsbmsb 2 1 ++ lsbmsb 2 sectorSize ++ lsbmsb 4 ptBytes ++
+        leN 4 lLoc ++ leN 4 0 ++ beN 4 mLoc ++ beN 4 0), ?_, ?_, ?_⟩
+    rotate_left
+    · simp only [List.length_append, Proof.BuildWF.descHeader_length, List.length_cons, List.length_nil, zeros_length,
+        lsbmsb_length, leN_length, beN_length, Proof.BuildWF.padTo_length _ _ _ hlin, Proof.BuildWF.padTo_length _ _ _ hv,
+        Proof.BuildWF.padTo_length _ _ _ hj]
+    · unfold volumeDescriptor descBodyPre
+      rw [hroot]
+      unfold padTo
+      simp only [List.append_assoc]
+      rfl
+  obtain ⟨pre, post, hpre, heq⟩ := hsplit
+  rw [heq, ← hr]
+  exact slice_at pre rootRec.encode post 156 hpre
+
+/-- … and for the descriptors of a generated image that record is the '.' record of directory 0 of the
+    respective hierarchy: a reader starting from sector 16 / 17 is sent to where the root directory is -/
+theorem descriptors_point_to_root (L : Layout) (clk : Clock) (it : DirItem) (h0 : L.items[0]? = some it) :
+    slice (pvdOf L clk) 156 34 = (DirRec.encode ⟨dirLoc L.items false L.isoLBA 0, dirLen L.items false 0, recTime it.mtime, 2, [0]⟩) ∧
+    slice (svdOf L clk) 156 34 = (DirRec.encode ⟨dirLoc L.items true L.jolietLBA 0, dirLen L.items true 0, recTime it.mtime, 2, [0]⟩) := by
+  have e1 := rootRecOf_eq L false L.isoLBA it h0
+  have e2 := rootRecOf_eq L true L.jolietLBA it h0
+  unfold pvdOf svdOf
+  rw [e1, e2]
+  exact ⟨descriptor_root_record _ _ _ _ _ _ _ _ _ (Proof.BuildWF.dot_encode_len _ _ _ _),
+         descriptor_root_record _ _ _ _ _ _ _ _ _ (Proof.BuildWF.dot_encode_len _ _ _ _)⟩
+
 end Ps3.Props.C08
